@@ -76,7 +76,21 @@ def encode_header(hdr: str) -> bytes:
             result = Header(hdr).encode(maxlinelen=0).encode("latin-1")
         except UnicodeEncodeError:
             result = hdr.encode("latin-1", errors="replace")
-    return b'"' + result + b'"'
+    return quote_string(result)
+
+
+########################################################################
+#
+def quote_string(value: bytes) -> bytes:
+    r"""
+    An IMAP `quoted` string (rfc3501 section 9): `\` and `"` are escaped with
+    a `\`. CR and LF can not appear in a quoted string at all (they are what
+    folded header lines and some encoded words decode to) so they are dropped
+    instead of breaking the response line apart.
+    """
+    value = value.replace(b"\r", b"").replace(b"\n", b"")
+    value = value.replace(b"\\", b"\\\\").replace(b'"', b'\\"')
+    return b'"' + value + b'"'
 
 
 ########################################################################
